@@ -1,4 +1,5 @@
 import FxVerif.Model.C15
+import FxVerif.Model.C15Staking
 import FxVerif.Model.Util
 /-! line-protocol driver for the C15 model: `lake env lean --run Driver/C15.lean < ops.txt` -/
 open FxVerif FxVerif.Util FxVerif.Model.C15
@@ -58,9 +59,9 @@ def parseOp : List String → Option Op
   | "submit" :: who :: exp :: initial :: msgs => do
     some (.submit (← nat? who) (← msgs.mapM parseMsg) (← nat? initial) (← bool? exp))
   | ["deposit", pid, who, amt] => do some (.deposit (← nat? pid) (← nat? who) (← nat? amt))
+  | ["depositx", pid, who, fx, other] => do some (.depositX (← nat? pid) (← nat? who) (← nat? fx) (← nat? other))
   | ["cancel", pid, who] => do some (.cancel (← nat? pid) (← nat? who))
   | ["vote", pid, voter, opts] => do some (.vote (← nat? pid) (← nat? voter) (← (opts.splitOn ",").mapM parseOpt))
-  | ["delegate", who, _, amt] => do some (.spend (← nat? who) (← nat? amt))
   | "endblock" :: dt :: stk => do some (.endBlock (← nat? dt) (← parseStaking stk {}))
   | _ => none
 
@@ -90,19 +91,56 @@ def showState (s : State) : String :=
   s!" cust=[{";".intercalate (cs.map fun c => s!"{c.1}={c.2.depositRatio}/{c.2.votingPeriod}/{c.2.quorum}")}]" ++
   s!" votes=[{";".intercalate (vs.map fun v => s!"{v.pid}/{v.voter}={",".intercalate (v.opts.map showOpt)}")}]"
 
-def stepLine (s : State) (line : String) : State × String :=
+/-- the numbers the harness read from the real staking keeper against the numbers of the modelled staking state -/
+def sameStaking (a b : Staking) : Bool :=
+  let sv (l : List Val) := l.mergeSort (fun x y => x.op ≤ y.op)
+  let sd (l : List Del) := l.mergeSort (fun x y => x.who < y.who || (x.who == y.who && x.val ≤ y.val))
+  a.totalBonded == b.totalBonded && sv a.vals == sv b.vals && sd a.dels == sd b.dels
+
+def showStaking (a : Staking) : String :=
+  s!"b={a.totalBonded} v=[{";".intercalate (a.vals.map fun v => s!"{v.op}/{v.bonded}/{v.shares}")}] d=[{";".intercalate (a.dels.map fun d => s!"{d.who}/{d.val}/{d.shares}")}]"
+
+def wLine (w : World) (op : WOp) : World × String :=
+  let (w', r) := wstep w op
+  (w', r ++ " " ++ showState w'.gov)
+
+def stepLine (w : World) (line : String) : World × String :=
   match words line with
-  | "reset" :: _ => (init, "ok")
+  | "reset" :: _ => (winit, "ok")
   | ["gcustom", url, r, p, q] =>
     -- genesis custom parameters, read from the real store at the start of a sequence
     match nat? r, nat? p, nat? q with
-    | some r, some p, some q => ((step s (.updateCustom url.toList (some ⟨r, p, q⟩))).1, "ok")
-    | _, _, _ => (s, "bad-op")
+    | some r, some p, some q => ((wstep w (.gov (.updateCustom url.toList (some ⟨r, p, q⟩)))).1, "ok")
+    | _, _, _ => (w, "bad-op")
+  | "gstaking" :: ws =>
+    -- genesis staking state (validators, their delegations), read from the real keeper at the start of a sequence
+    match ws with
+    | red :: ws =>
+      match nat? red, parseStaking ws {} with
+      | some red, some g => wstep w (.genesis { vals := g.vals, dels := g.dels, reduction := red })
+      | _, _ => (w, "bad-op")
+    | [] => (w, "bad-op")
+  | ["delegate", who, val, amt] =>
+    match nat? who, nat? val, nat? amt with
+    | some who, some val, some amt => wLine w (.delegate who val amt)
+    | _, _, _ => (w, "bad-op")
+  | ["slash", val, factor] =>
+    match nat? val, nat? factor with
+    | some val, some factor => wLine w (.slash val factor)
+    | _, _ => (w, "bad-op")
+  | "tx" :: ws =>
+    -- an op carried by a transaction of the block that the next `endblock` finalizes: the result kind only
+    match parseOp ws with
+    | none => (w, "bad-op")
+    | some op => wstep w (.gov op)
   | ws =>
     match parseOp ws with
-    | none => (s, "bad-op")
-    | some op =>
-      let (s', r) := step s op
-      (s', r ++ " " ++ showState s')
+    | none => (w, "bad-op")
+    | some (.endBlock dt real) =>
+      -- the end-blocker reads the MODELLED staking state; the real numbers on the line must be the same numbers
+      let (w', r) := wLine w (.gov (.endBlock dt real))
+      if sameStaking real (viewOf w.stk) then (w', r)
+      else (w', r ++ " STAKING-NUMBERS-DIFFER model:" ++ showStaking (viewOf w.stk))
+    | some op => wLine w (.gov op)
 
-def main : IO Unit := runDriver stepLine init
+def main : IO Unit := runDriver stepLine winit
